@@ -198,6 +198,13 @@ def make_model(name: str, seed: int, dtype: torch.dtype) -> torch.nn.Module:
             torch.nn.Linear(5, 4, bias=True), Act(),
             torch.nn.Linear(4, 2, bias=False),
         )
+    elif name == 'wide':
+        # wide enough for second-order data kept in low precision to lose
+        # positive definiteness (C07: negative <V, D>)
+        m = torch.nn.Sequential(
+            torch.nn.Linear(32, 32), Act(),
+            torch.nn.Linear(32, 8),
+        )
     elif name == 'mlp4':
         # four layers for load-balancing variety; A 5,8,6,4 G 7,... distinct
         m = torch.nn.Sequential(
@@ -216,12 +223,12 @@ def make_model(name: str, seed: int, dtype: torch.dtype) -> torch.nn.Module:
 
 def in_shape(name: str) -> tuple[int, ...]:
     return {'mlp3': (4,), 'mlp2': (3,), 'mlp2nb': (3,), 'conv': (2, 4, 4),
-            'mlp4': (4,), 'conv2': (2, 5, 4), 'nd': (3, 4), 'mixb': (3,), 'eq': (4,), 'conv3': (2, 4, 4)}[name]
+            'mlp4': (4,), 'wide': (32,), 'conv2': (2, 5, 4), 'nd': (3, 4), 'mixb': (3,), 'eq': (4,), 'conv3': (2, 4, 4)}[name]
 
 
 def out_shape(name: str) -> tuple[int, ...]:
     return {'mlp3': (2,), 'mlp2': (3,), 'mlp2nb': (2,), 'conv': (4,),
-            'mlp4': (2,), 'conv2': (4,), 'nd': (3, 2), 'mixb': (2,), 'eq': (4,), 'conv3': (4,)}[name]
+            'mlp4': (2,), 'wide': (8,), 'conv2': (4,), 'nd': (3, 2), 'mixb': (2,), 'eq': (4,), 'conv3': (4,)}[name]
 
 
 def make_batch(cfg: Config, seed: int, rank: int, it: int, mb: int,
@@ -569,6 +576,16 @@ class RankRun:
                 s['pre_grads'] = pre_grads
                 self.sgd()
                 self.have_grads = False
+            elif kind == 'indef':
+                # resume from a checkpoint whose A factors are negative
+                # definite (public API only): with explicit inverses the
+                # preconditioner is then indefinite and <V, D> negative
+                sd = self.pre.state_dict()
+                for lsd in sd['layers'].values():
+                    a = lsd['A']
+                    lsd['A'] = -float(op[1]) * torch.eye(
+                        a.shape[0], dtype=a.dtype)
+                self.pre.load_state_dict(sd)
             elif kind == 'reset':
                 self.pre.reset_batch()
             elif kind == 'reset_on':
